@@ -180,6 +180,7 @@ K_STUBS = DEFAULT_STUBS + ["cteq", "fmt"]
 for f1, f2, k, nf, tier in [(1, 0, 2, 1, "quick"), (2, 1, 2, 2, "quick"), (1, 2, 3, 2, "thorough"), (0, 0, 0, 0, "quick"), (0, 1, 1, 2, "quick")]:
     h("policy_matches_%d_%d_%d_n%d" % (f1, f2, k, nf), "kernels::policy_matches::<S, %d, %d, %d, %d>" % (f1, f2, k, nf), ["C15", "C12"], tier,
       unwind=4, unwindset={r"^memcmp\.0$": 5}, stubs=DEFAULT_STUBS + ["cteq"], family="policy_matches")
+h("policy_matches_marker_1_2", "kernels::policy_matches_marker::<S, 1, 2>", ["C12", "C15"], "quick", unwind=4, unwindset={r"^memcmp\.0$": 34}, stubs=DEFAULT_STUBS + ["cteq"], family="policy_matches_marker")
 for f, tier in [(0, "thorough"), (1, "thorough"), (2, "thorough")]:
     h("filter_text_roundtrip_%d" % f, "kernels::filter_text_roundtrip::<S, %d>" % f, ["C15", "C09"], tier,
       unwind=16, stubs=DEFAULT_STUBS, family="filter_text_roundtrip", cap=1200)
